@@ -297,6 +297,36 @@ C05_ENTRY = dict(
     trusted_base=RCU_TRUST, assumptions=RCU_ASSUME, partial=[],
 )
 
+C12_ENTRY = dict(
+    lean_files=["ConcVerif/Props/C12.lean"], components=["rcu"], stage="A",
+    level_text="Lean 4 theorems (kernel-checked; unbounded readers / writers, client programs and interleavings) over the "
+               "executable model of rcu_list.hpp + rcu_guarded.hpp extended, outside the model, by history variables (per "
+               "thread: the linked nodes at `begin` and the nodes the iterator has pointed to; globally: the number of "
+               "acquisitions of the write mutex and the log of list mutations). Traversal: the visited nodes are strictly "
+               "increasing in the ghost list order (list order, no duplicates), are nodes that a push linked and carry the "
+               "value that push was called with, `*it` returns it; a traversal starts at the first linked node; every node "
+               "linked at `begin` and still linked (an unlinked node never comes back) is visited or still ahead of the "
+               "iterator, and all are visited when the iterator reaches the end - also when the iterator stands on a node "
+               "that is being erased. Writers: mlk / mul bracket critical sections with at most one thread inside; until the "
+               "destructor the linked list changes only by a step of the mutex holder, by exactly one push_front / push_back "
+               "/ erase of a sequential reference list; the list equals the logged mutations executed one after the other on "
+               "an empty `List`, logged in acquisition order with at most one per critical section, and a push that reaches "
+               "its unlock has logged exactly its own. Tie: trace acceptance of the unmodified headers (every edge covered, "
+               "executable invariants on every state), a trace-level oracle for order / duplicates / completeness / mutual "
+               "exclusion that does not use the model, and a sequential differential: single-thread op sequences "
+               "(push_front/back, emplace_front/back incl. throwing constructors, erase by index / by value, full "
+               "traversals) are replayed in the driver on a Lean `List` and compared with every traversal the real list "
+               "returns and with the model's list at destruction; independently in Python at the level of the primitives.",
+    level_note="Trusted: Lean kernel (+propext, Classical.choice, Quot.sound), seq_cst atomics / mutex / plain fields as "
+               "interleaved cells (C07 carries the memory-model half), shim + tap + allocator + scheduler + driver glue. "
+               "insert / emplace(pos) / clear / reverse iteration are declared but not defined in the header: outside.",
+    trusted_base=RCU_TRUST, assumptions=RCU_ASSUME,
+    partial=["'the final contents equal those of some sequential execution of the same operations' is proved at the level of "
+             "nodes: the log holds one entry per linearisation store, tagged with its critical section; that a returning "
+             "erase of a not yet erased node logs exactly one entry is visible in the model's control flow (eDel/fresh -> "
+             "eUnl) but not stated as a separate theorem"],
+)
+
 PARTS = {
     "C14": dict(
         lean_files=["ConcVerif/Props/C14_rcu.lean"], components=["rcu"],
@@ -327,6 +357,7 @@ def register(PROPS, COMPONENTS):
                              inst_allow=[r"^rcu_list::clear$", r"^rcu_list::insert$", r"^rcu_list::emplace$", r"^rcu_list::cbegin$",
                                          r"^rcu_list::cend$", r"::operator--$"])
     PROPS["C05"] = C05_ENTRY
+    PROPS["C12"] = C12_ENTRY
     PROPS["C13"] = dict(
         lean_files=["ConcVerif/Props/C13.lean"], components=["rcu"], stage="A",
         level_text="Lean 4 theorems (kernel-checked; unbounded threads, client programs, interleavings, spurious CAS failures and "
